@@ -7,7 +7,7 @@ Init == st = Init0 /\ last = <<"init">>
 Tos == {"first", "last"}
 Next == \/ \E n \in Sites, to \in Tos, nz \in BOOLEAN : CanOrth(st) /\ st' = Orth(st, n, to, nz) /\ last' = <<"orth", n, to, nz>>
         \/ \E to \in Tos : st' = Absorb(st, to) /\ last' = <<"absorb", to>>
-        \/ \E nz \in BOOLEAN, b \in BOOLEAN : st' = Diag(st, nz, b) /\ last' = <<"diag", nz, b>>
+        \/ \E nz \in BOOLEAN, b \in BOOLEAN, sh \in BOOLEAN : st' = Diag(st, nz, b, sh) /\ last' = <<"diag", nz, b, sh>>
         \/ \E to \in Tos, nz \in BOOLEAN : st' = Canonize(st, to, nz) /\ last' = <<"canonize", to, nz>>
         \/ \E to \in Tos, nz \in BOOLEAN, b \in BOOLEAN : CanTruncate(st) /\ st' = Truncate(st, to, nz, b) /\ last' = <<"truncate", to, nz, b>>
 Bound == TLCGet("level") <= Depth
